@@ -844,6 +844,19 @@ def gen_length_programs():
         for k_, op_ in enumerate(ops):
             out.append({"dev": dev_, "wl": {"max_volume": "950", "max_int": False, "auto_split": True, "diti_mode": False},
                         "labware": [pl, tr], "ops": [op_], "family": "lengths"})
+    # a single step a hair above the worklist's max_volume (closer than any tolerance worth having), and ids in other spellings
+    big = {"kind": "plate", "name": "P", "rows": 2, "cols": 2, "min": "0", "max": "5000", "init": {"shape": "scalar", "v": "2000"}}
+    for mv_, v_ in (("950", "121601/128"), ("200", "25601/128"), ("25/2", "1601/128")):
+        for op_ in ({"op": "aspirate", "lw": 0, "wells": {"shape": "list", "v": ["A01"]}, "vols": {"shape": "list", "v": [v_]}, "label": None, "kw": None},
+                    {"op": "dispense", "lw": 0, "wells": {"shape": "list", "v": ["B02"]}, "vols": {"shape": "list", "v": [v_]}, "label": None, "comps": None, "kw": None}):
+            out.append({"dev": "evo", "wl": {"max_volume": mv_, "max_int": False, "auto_split": False, "diti_mode": False}, "labware": [big], "ops": [op_], "family": "lengths"})
+    for bad_id in ("B1", "B001", "b01", "C01", "A3"):
+        for side in ("dwells", "swells"):
+            op_ = {"op": "transfer", "src": 0, "swells": {"shape": "list", "v": ["A01"]}, "dst": 1, "dwells": {"shape": "list", "v": ["A02"]},
+                   "vols": {"shape": "list", "v": ["10"]}, "label": None, "ws": 1}
+            op_[side] = {"shape": "list", "v": [bad_id]}
+            out.append({"dev": "evo", "wl": {"max_volume": "950", "max_int": False, "auto_split": True, "diti_mode": False},
+                        "labware": [big, dict(big, name="Q")], "ops": [op_], "family": "lengths"})
     # reagent distributions whose volume is just above max_volume / k: the multi-dispense count must be floored to k - 1
     for mv, vols in (("950", ["7601/16", "1267/4", "3801/16", "475", "1901/4"]), ("200", ["1601/16", "401/8", "100"])):
         ops = [{"op": "distribute", "src": 0, "col": 0, "dst": 1, "dwells": {"shape": "list", "v": ["A01", "B01", "C01"]}, "volume": v,
